@@ -32,6 +32,7 @@ var defaultRedirects = map[string]string{
 	"sort.SliceStable":                   "golang.org/x/telemetry/internal/vrt.SortSlice",
 	"sort.Strings":                       "golang.org/x/telemetry/internal/vrt.SortStrings",
 	"time.Now":                           "golang.org/x/telemetry/internal/vrt.Now",
+	"html.EscapeString":                  "golang.org/x/telemetry/internal/vrt.EscapeString",
 	"runtime/debug.ReadBuildInfo":        "golang.org/x/telemetry/internal/vrt.ReadBuildInfo",
 }
 
